@@ -182,6 +182,7 @@ pub fn gen_mc(r: &mut Rng, rp_id: &str) -> McSpec {
         hmac_secret: None,
         prf: None,
         via_trait: false,
+        hmac_secret_mc: false,
     }
 }
 
